@@ -4,6 +4,11 @@ import json, os, subprocess
 ALL = ["C%02d" % i for i in range(1, 20)]
 MC = "model_checking"
 CHECKS = {
+ "C08": dict(cat=MC, engine="E2 xseq (bounded-exhaustive enumeration on the real checker/evaluator)",
+   technique="bounded-exhaustive enumeration of expression trees (depth<=2, depth-3 slice) through the real type checker and evaluator under 6 request environments vs reference typing + checked-i64 reference interpreter",
+   text="Every tree with one operator over the leaf set, every tree with one operator over leaves plus one representative depth-1 tree per (static type, outcome) class, and (thorough) a depth-3 slice are type-checked and, if accepted, evaluated by the real code under catch_unwind; oracle: no panic, runtime kind equals static type for both the raw and the coerced pair, value equals the reference interpreter where it is specified, ill-typed scalar trees are rejected at load.",
+   note="Trusts: harness profile (overflow-checks on, like the repo's dev profile); reference interpreter leaves regex/to_string-of-composites unspecified. Not covered: trees deeper than the slice, identifiers other than let-bound x,y and request.*.",
+   ref="DESIGN.md §3 C08"),
  "C09": dict(cat=MC, engine="E2 xseq (bounded-exhaustive enumeration on the real parser)",
    technique="bounded-exhaustive enumeration of operator chains and token-boundary fillers on the real milu parser vs precedence-climbing reference derived from milu/readme.md",
    text="Every operator spelling alone, all ordered pairs/triples (thorough: 4-chains) of the 23 binary operators, unary/postfix/ternary combinations and 9 blank/comment fillers at every token boundary are parsed by the real parser and compared with a reference tree built from the README table; exhaustive within these shapes.",
